@@ -271,6 +271,18 @@ fn enum_large(tier: Tier, f: &mut dyn FnMut(SeqCase) -> bool) {
         c.mode = 1;
         cases.push(c);
     }
+    // strictly increasing sequences of several hundred items with the disorder at one end only (a fresh
+    // item in front; the last ten keys moved to the front), in six neighbouring sizes so that every raw
+    // entry point (diff_deadline, diff_slices, diff - chosen by the lengths) sees them
+    for n in 400u32..406 {
+        let a: Vec<u32> = (0..n).collect();
+        let mut b = vec![100_000u32];
+        b.extend(0..n);
+        cases.push(SeqCase::full(0, a.clone(), b));
+        let mut b2: Vec<u32> = (n - 10..n).collect();
+        b2.extend(0..n - 10);
+        cases.push(SeqCase::full(0, a, b2));
+    }
     for c in cases {
         if !f(c) {
             return;
@@ -300,7 +312,7 @@ impl Prop for C03 {
             Stage {
                 name: "large",
                 kind: StageKind::Enumerate {
-                    scope: "fixed large cases: blocks of 4097 and 9000 identical / period-2 items between differing ends (Myers), 6000 distinct near-identical items, LCS via the Algorithm dispatch on 1063 x 1053 items (1.1 M table cells) with crossing unique items, LCS on 65 602 x 4 and 4 x 65 602 items".into(),
+                    scope: "fixed large cases: blocks of 4097 and 9000 identical / period-2 items between differing ends (Myers), 6000 distinct near-identical items, LCS via the Algorithm dispatch on 1063 x 1053 items (1.1 M table cells) with crossing unique items, LCS on 65 602 x 4 and 4 x 65 602 items; increasing sequences of 400-405 items with a fresh item in front / the last ten keys moved to the front (Myers through each raw entry point)".into(),
                     exhaustive: true,
                     gen: enum_large,
                 },
